@@ -27,9 +27,9 @@ def make_component(rng, ctor, cid, n1, n2, dec, freqs=None, lossy=0.35, allow_ne
     elif ctor == 'admittance':
         a['Y'] = [1.0 / v(), rng.choice([1, -1]) / v()]
     elif ctor == 'capacitor':
-        a['C'] = G.value(rng, -6, -3)
+        a['C'] = G.value(rng, -6, -3) if rng.random() < 0.75 else G.value(rng, -12, -8)        # pF..nF values as well
     elif ctor == 'inductance':
-        a['L'] = G.value(rng, -4, -1)
+        a['L'] = G.value(rng, -4, -1) if rng.random() < 0.75 else G.value(rng, -9, -6)         # nH..uH values as well
     elif ctor in ('lamp', 'resistive_load'):
         a['P'] = G.value(rng, 0, 2); a['V_ref'] = G.value(rng, 0, 2)
     elif ctor == 'short_circuit':
@@ -88,6 +88,8 @@ def random_circuit(rng, max_nodes=6, max_comps=10, passives=PASSIVE_R, n_reactiv
     n_c = rng.randint(max(n_nodes - 1, 2), min(max_comps, n_nodes + 4))
     topo = G.random_topology(rng, n_nodes, n_c)
     lo = rng.randint(0, 3)
+    if rng.random() < 0.08:
+        lo = rng.choice([-6, -5, 6, 7])           # micro-ohm / mega-ohm circuits
     dec = (lo, lo + rng.randint(0, 2))
     nl = G.pick_labels(rng, node_pool or (G.NODE_POOL if hostile else [str(k) for k in range(12)]), n_nodes)
     ids = G.pick_labels(rng, id_pool or (COMP_IDS if hostile else [f'E{k}' for k in range(20)]), n_c + 1)
